@@ -33,6 +33,10 @@ pub struct ClipCase {
     pub tris: Vec<[[X; 4]; 3]>,
     /// attribute components per vertex per triangle (first ncomp used)
     pub attrs: Vec<[[X; 3]; 3]>,
+    /// metamorphic relation: clip space is homogeneous, so clipping the batch scaled by 2^scale_exp must give
+    /// exactly the results scaled by 2^scale_exp (power-of-two scaling is exact in binary floating point)
+    #[serde(default)]
+    pub scale_exp: i32,
 }
 
 fn ncomp(ty: &str) -> usize {
@@ -160,11 +164,13 @@ fn attr1() -> impl Strategy<Value = f32> {
 
 pub fn case_strategy(max_tris: usize) -> BoxedStrategy<ClipCase> {
     let ty = prop_oneof![2 => Just("f32"), 1 => Just("Vec3"), 1 => Just("(f32,Vec2)")];
-    (ty, proptest::collection::vec((clip_tri(), [attr3(), attr3(), attr3()]), 1..=max_tris))
-        .prop_map(|(ty, ts)| ClipCase {
+    let exp = prop_oneof![2 => Just(0i32), 1 => Just(-22i32), 1 => Just(-40i32), 1 => Just(30i32), 4 => -60i32..=60];
+    (ty, proptest::collection::vec((clip_tri(), [attr3(), attr3(), attr3()]), 1..=max_tris), exp)
+        .prop_map(|(ty, ts, scale_exp)| ClipCase {
             ty: ty.to_string(),
             tris: ts.iter().map(|(t, _)| t.map(xs)).collect(),
             attrs: ts.iter().map(|(_, a)| a.map(xs)).collect(),
+            scale_exp,
         })
         .boxed()
 }
@@ -478,6 +484,35 @@ pub fn check(c: &ClipCase, obs: &mut Obs) -> Check {
         whole.len(),
         concat.len()
     );
+    // scale invariance (exact): clip(2^k T) == 2^k clip(T), attributes untouched
+    if c.scale_exp != 0 {
+        let k = 2f32.powi(c.scale_exp);
+        let scaled: Vec<[[X; 4]; 3]> = c.tris.iter().map(|t| t.map(|v| v.map(|x| X(x.0 * k)))).collect();
+        // skip when scaling would overflow or lose bits to subnormals
+        let representable = c.tris.iter().flatten().flatten().all(|x| x.0 == 0.0 || ((x.0 * k).is_finite() && (x.0 * k).abs() >= 1e-30 && (x.0 * k) / k == x.0));
+        if representable {
+            let out_s = match clip_case(&c.ty, &scaled, &c.attrs) {
+                Ok(o) => o,
+                Err(p) => fail!("clip-panic", "view_frustum::clip panicked on the batch scaled by 2^{}: {p}", c.scale_exp),
+            };
+            let same = out_s.len() == whole.len()
+                && out_s.iter().zip(&whole).all(|(a, b)| (0..3).all(|i| (0..4).all(|j| a[i].pos[j].to_bits() == (b[i].pos[j] * k).to_bits() || (a[i].pos[j] == 0.0 && b[i].pos[j] == 0.0)) && a[i].attr.iter().zip(&b[i].attr).all(|(x, y)| x.to_bits() == y.to_bits())));
+            ensure!(
+                same,
+                "not-scale-invariant",
+                "clipping the batch scaled by 2^{} gives {} triangles, the unscaled batch gives {} (or different values): clip space is homogeneous, the result must scale exactly",
+                c.scale_exp,
+                out_s.len(),
+                whole.len()
+            );
+            obs.class("scale-invariance-checked");
+            if c.scale_exp < -15 {
+                obs.class("scale:tiny(<2^-15)");
+            }
+        } else {
+            obs.excluded("scaled coordinates not exactly representable");
+        }
+    }
     obs.class(match c.ty.as_str() {
         "f32" => "attr:f32",
         "Vec3" => "attr:Vec3",
@@ -513,7 +548,7 @@ fn grid_case(idx: u64) -> ClipCase {
         [coords[3 * i] * a, coords[3 * i + 1] * a, coords[3 * i + 2] * a, ws[i]]
     });
     let attrs = [[1.0f32, -2.0, 0.25], [3.0, 0.5, -1.0], [-2.0, 4.0, 2.0]];
-    ClipCase { ty: "Vec3".into(), tris: vec![tri.map(xs)], attrs: vec![attrs.map(xs)] }
+    ClipCase { ty: "Vec3".into(), tris: vec![tri.map(xs)], attrs: vec![attrs.map(xs)], scale_exp: [0, -24, 17][(idx % 3) as usize] }
 }
 
 pub fn run(cx: &mut Ctx) {
